@@ -272,6 +272,41 @@ def moving_clock_history(ctx):
                                 return
 
 
+
+def chunk_boundaries(ctx):
+    """plaintext lengths on and around the sizes a streaming cipher would cut the content at (64 KiB, 1 MiB, 2 MiB, each ± 1 … 16 octets —
+    the 16-octet GCM tag then straddles a chunk boundary): protect then unprotect on a fresh root-key cache returns the plaintext (real
+    crypto, in-envelope and trailing layout)"""
+    import uuid
+    import dpapi_ng
+    from dpapi_ng import _gkdi as g
+    rk = uuid.UUID("d778c271-9025-9a82-f6dc-b8960b8ad8c5")
+    root = bytes(range(11, 75))
+    sizes = sorted({base + d for base in (1 << 16, 1 << 20, 2 << 20) for d in (-17, -16, -15, -8, -1, 0, 1, 15, 16)} if ctx.thorough else
+                   {(1 << 20) - 15, (1 << 20) - 1, (1 << 20), (1 << 16) - 15, (1 << 16) - 1, (2 << 20) - 8, (1 << 20) + 1})
+    block = bytes(range(256)) * 4096
+    for n in sizes:
+        data = (block * (n // len(block) + 1))[:n]
+        a, b = dpapi_ng.KeyCache(), dpapi_ng.KeyCache()
+        for ch in (a, b):
+            ch.load_key(root, root_key_id=rk, kdf_parameters=g.KDFParameters("SHA256").pack())
+        try:
+            blob = dpapi_ng.ncrypt_protect_secret(data, "S-1-5-18", root_key_identifier=rk, cache=a)
+        except Exception as e:  # noqa
+            ctx.violation("protect fails for a plaintext length", {"scenario": "chunk_boundaries", "len": n}, canon_exc(e), "a blob")
+            return
+        for layout, wire in (("in-envelope", blob), ("trailing", relayout(blob))):
+            try:
+                got = dpapi_ng.ncrypt_unprotect_secret(wire, cache=b)
+            except Exception as e:  # noqa
+                got = ("raised " + canon_exc(e) + ": " + str(e)[:60]).encode()
+            ctx.count("chunk_boundaries:" + layout)
+            if got != data:
+                ctx.violation("protect then unprotect does not return the plaintext at a chunk-boundary length",
+                              {"scenario": "chunk_boundaries", "len": n, "layout": layout}, (got[:80] if got.startswith(b"raised") else b"a different plaintext").decode("latin-1"), f"the {n} octets")
+                return
+
+
 def run(ctx):
     prelude.validate(ctx)
     rng = ctx.rng
@@ -317,6 +352,7 @@ def run(ctx):
     ticking(ctx)
     skewed_clocks(ctx)
     moving_clock_history(ctx)
+    chunk_boundaries(ctx)
 
 
 def search(ctx, broken, disagreements):
@@ -326,6 +362,12 @@ def search(ctx, broken, disagreements):
 def replay(ctx, payload):
     v = payload["violation"]["input"]
     print("recorded input:", v)
+    if v.get("scenario") == "chunk_boundaries":
+        c2 = type(ctx)(ctx.prop, "quick", ctx.seed)
+        chunk_boundaries(c2)
+        for x in c2.violations:
+            print(" ", x["what"], x["input"], x["observed"])
+        return not c2.violations
     if v.get("scenario") == "moving_clock_history":
         c2 = type(ctx)(ctx.prop, "quick", ctx.seed)
         moving_clock_history(c2)
